@@ -802,6 +802,21 @@ func (vm *vm) restoreStacks(iterLen, refLen uint32) (ex *Exception) {
 	return
 }
 
+// discardStacks truncates the iterator and reference stacks without closing the iterators. Used when unwinding
+// for an uncatchable exception (interrupt, stack overflow) or a foreign panic: no script code must run then.
+func (vm *vm) discardStacks(iterLen, refLen uint32) {
+	iterTail := vm.iterStack[iterLen:]
+	for i := range iterTail {
+		iterTail[i] = iterStackItem{}
+	}
+	vm.iterStack = vm.iterStack[:iterLen]
+	refTail := vm.refStack[refLen:]
+	for i := range refTail {
+		refTail[i] = nil
+	}
+	vm.refStack = vm.refStack[:refLen]
+}
+
 func (vm *vm) handleThrow(arg interface{}) *Exception {
 	ex := vm.exceptionFromValue(arg)
 	for len(vm.tryStack) > 0 {
@@ -820,7 +835,11 @@ func (vm *vm) handleThrow(arg interface{}) *Exception {
 		vm.sp = int(tf.sp)
 		vm.stash = tf.stash
 		vm.privEnv = tf.privEnv
-		_ = vm.restoreStacks(tf.iterLen, tf.refLen)
+		if ex == nil {
+			vm.discardStacks(tf.iterLen, tf.refLen)
+		} else {
+			_ = vm.restoreStacks(tf.iterLen, tf.refLen)
+		}
 
 		if tf.catchPos == tryPanicMarker {
 			break
